@@ -761,7 +761,12 @@ int tls_client_key_shares_from_bytes(SM2_Z256_POINT *sm2_point, const uint8_t **
 int tls13_server_hello_extensions_get(const uint8_t *exts, size_t extslen, SM2_Z256_POINT *sm2_point)
 {
 	uint16_t version;
-	while (extslen) {
+	while (extslen)
+	VERIF_LOOP_ASSIGNS(exts, extslen, version, *sm2_point)
+	VERIF_LOOP_INVARIANT(extslen <= VERIF_LOOP_ENTRY(extslen))
+	VERIF_LOOP_INVARIANT(extslen == 0 || (VERIF_SAME_OBJECT(exts, VERIF_LOOP_ENTRY(exts)) && VERIF_OFFSET(exts) + extslen == VERIF_OFFSET(VERIF_LOOP_ENTRY(exts)) + VERIF_LOOP_ENTRY(extslen)))
+	VERIF_LOOP_DECREASES(extslen)
+	{
 		uint16_t ext_type;
 		const uint8_t *ext_data;
 		size_t ext_datalen;
